@@ -320,6 +320,15 @@ def run_check(pid, tier):
         if not os.environ.get('VERIF_KEEP'):
             shutil.rmtree(bdir, ignore_errors=True)
 
+def manifest_note(pid):
+    try:
+        m = json.load(open(os.path.join(V, 'MANIFEST.json')))
+        for c in m['checks']:
+            if c['property_id'] == pid: return [c['level_note']]
+    except Exception:
+        pass
+    return []
+
 def assemble_evidence(pid, cfg, tier, seed, results, wall, nviol, known_lines):
     counters = {}; phases = []; samples = []; extra = {}
     complete = True
@@ -356,7 +365,7 @@ def assemble_evidence(pid, cfg, tier, seed, results, wall, nviol, known_lines):
     ev = {
         'property_id': pid, 'tier': tier, 'seed': seed, 'level': cfg['level'],
         'coverage': cov,
-        'assumptions': cfg.get('assumptions', []),
+        'assumptions': cfg.get('assumptions', []) or manifest_note(pid),
         'wall_s': round(wall, 2),
         'violations': nviol,
         'known_findings': known_lines,
